@@ -36,9 +36,17 @@ def check(pid, tier):
     # scheduler side: in whole runs the time requested from the source equals the spec's
     # shifted time (and the driver's choices are consistent with it: C01/C02 clauses)
     cfgs = []
-    for fam in (["pair", "ring2", "chain3d"] if tier == "quick" else ["pairL", "pair3", "ring2", "ring3", "ringbreak", "chain3d"]):
+    def has_delay(c):
+        return any(a["k"] in ("fixed", "topull", "topush") for k in c["comps"] for lk in k["ins"] for a in lk["chain"])
+    # (chain3p, pullring: a delay adapter behind a pull-based component that has inputs itself)
+    for fam in (["pair", "ring2", "chain3d", "chain3p", "pullring"] if tier == "quick"
+                else ["pairL", "pair3", "ring2", "ring3", "ringbreak", "chain3d", "chain3p", "pullring", "pullringtail"]):
         got = tlc.emit("SchedEmit", {"FAMILY": fam})
-        cfgs += [c for c in got if "chained_delays" in check_sched.features(c) or fam != "pairL"]
+        if fam == "pairL":
+            got = [c for c in got if "chained_delays" in check_sched.features(c)]
+        elif fam in ("chain3p", "pullring", "pullringtail"):
+            got = [c for c in got if has_delay(c)]
+        cfgs += got
     import random
     from .common import seed
     cap = 3000 if tier == "quick" else 60000
